@@ -12,14 +12,16 @@
    for all inputs.
 
    The re-parse clauses ("the output parses without junk", idempotence through the
-   real parser) need the block theorems of C02; they are checked by the harness
-   oracle on every case.  C16_idempotent is the entity-level statement: for ANY
+   real parser) need the block theorems of C02, which are not available:
+   C16_reparse_partial states the clause conditionally on the re-parse lemma for the
+   output entry list; the harness oracle checks it with the real parser on every case.  C16_idempotent is the entity-level statement: for ANY
    entry list X with the entities of the output (such as a junk-free re-parse).
    Known findings: C16_wrap_valueless_refuted (.inc `#define KEY` without value). *)
 From Coq Require Import ZArith NArith List Bool Arith.
 From CL Require Import Base.Sx Base.Res Base.Str Model.AddRemove Model.Channels
                        Proofs.ChannelsProofs Proofs.ChannelsSpec Model.Serializer
-                       Proofs.SerializerProofs Proofs.SerializerSpec Proofs.SerializerFinal.
+                       Proofs.SerializerProofs Proofs.SerializerSpec Proofs.SerializerFinal
+                       Proofs.ReparsePartial.
 Import ListNotations.
 Local Open Scope nat_scope.
 
@@ -27,12 +29,7 @@ Local Open Scope nat_scope.
 Theorem C16_output : forall wrap name reference old nd txt,
   serialize wrap name reference old nd = Ok txt ->
   exists out, serialize_entries wrap reference old nd = Ok out /\ txt = concat (map c_text out).
-Proof.
-  intros wrap name reference old nd txt. unfold serialize.
-  destruct (get_parser name) as [[p|]|]; cbn; try discriminate.
-  destruct (serialize_entries wrap reference old nd) as [out|]; cbn; [|discriminate].
-  intros H; inversion H; subst. exists out. auto.
-Qed.
+Proof. exact serialize_inv. Qed.
 
 (* the keys of the output entities are exactly the reference keys, in reference
    order, that have a new value, or no entry in new_data and an old entity *)
@@ -102,6 +99,20 @@ Theorem C16_idempotent : forall wrap reference old nd out X out2,
   serialize_entries wrap reference X [] = Ok out2 ->
   filter is_cent out2 = filter is_cent out.
 Proof. exact serialize_idempotent. Qed.
+
+(* _partial: missing is the re-parse lemma itself (C02 block theorems) — given it for the
+   output entry list, the bytes re-parse without junk and the re-parsed entities are
+   exactly the reference keys with a value, in reference order *)
+Theorem C16_reparse_partial : forall (parse : str -> list centry) wrap name reference old nd txt,
+  uniq (nj reference) -> uniq (nj old) -> NoDup (map fst nd) -> wrap_ok wrap ->
+  serialize wrap name reference old nd = Ok txt ->
+  exists out, serialize_entries wrap reference old nd = Ok out /\ txt = serialize_legacy out /\
+    Forall nonjunk out /\
+    (reparses parse out ->
+       Forall nonjunk (parse txt) /\
+       map c_key (filter is_cent (parse txt)) =
+         filter (has_value old nd) (map c_key (filter is_entity reference))).
+Proof. exact serialize_reparse. Qed.
 
 Theorem C16_unsupported : forall wrap name reference old nd, get_parser name = Ok None ->
   serialize wrap name reference old nd = Raise NotSupported.
